@@ -137,7 +137,11 @@ class URI(object):
         return not self.__eq__(other)
 
     def __hash__(self):
-        return hash(self.__getstate__())
+        state = self.__getstate__()
+        if isinstance(self.object, set):
+            # the tags of a PYROMETA uri
+            state = (state[0], frozenset(self.object)) + state[2:]
+        return hash(state)
 
     def __getstate__(self):
         return self.protocol, self.object, self.sockname, self.host, self.port
